@@ -845,12 +845,33 @@ pub fn run(ctx: &Ctx, rep: &Report) -> Meta {
     }
     par_items(ctx, rep, "size-sweep", &sweep, |op| run_op(rep, "size-sweep", op));
     run_cases(ctx, rep, "schedules", ctx.tier.pick(48, 400), 60, schedule_strat, |s| run_schedule(rep, "schedules", s));
+    // large inputs under contention: all workers sign (and have verified) statements whose domain input is far above
+    // a few KiB (headers of 9 KiB .. 300 KiB, 170 .. 260 messages) at the same moment; a buffer pool or a lock that
+    // is tried rather than waited for takes its other branch only then
+    {
+        let hl = [9000usize, 20000, 70000, 300000, 12000, 33000];
+        let r = contend("large-inputs-under-contention", ctx.workers.max(4), ctx.tier.pick(3, 12), |t, round| {
+            let suite = if (t + round) % 2 == 0 { SuiteId::Sha256 } else { SuiteId::Shake256 };
+            let key = KeySpec { fixture: false, ikm: BSpec { len: 32, class: 0, seed: (t * 13 + round) as u32 }, key_info: OptBytes::None, key_dst: OptBytes::None };
+            let op = if (t + round) % 3 == 0 {
+                Op::Sign { suite, key, header: OptBytes::Bytes(BSpec { len: 16, class: 0, seed: 4 }), msgs: MsgVec { items: (0..170 + 30 * (t % 4)).map(|j| BSpec { len: 5, class: 0, seed: (t * 1000 + j) as u32 }).collect() } }
+            } else if (t + round) % 3 == 1 {
+                Op::Sign { suite, key, header: OptBytes::Bytes(BSpec { len: hl[(t + round) % hl.len()], class: 0, seed: t as u32 }), msgs: MsgVec { items: (0..3).map(|j| BSpec { len: 9, class: 0, seed: (t * 10 + j) as u32 }).collect() } }
+            } else {
+                Op::Verify { suite, key, header: OptBytes::Bytes(BSpec { len: hl[(t * 5 + round) % hl.len()], class: 0, seed: t as u32 }), msgs: MsgVec { items: (0..2).map(|j| BSpec { len: 9, class: 0, seed: (t * 10 + j) as u32 }).collect() }, m: Mutn::None }
+            };
+            run_op(rep, "large-inputs-under-contention", &op)
+        });
+        if let Err(f) = r {
+            rep.add_violation(f);
+        }
+    }
     Meta {
         rule: "generated operations: KeyGen/SkToPk (ikm 0..200 octets, key_info up to 65536, key_dst up to 300 or None), histories of create_generators(count, api_id) calls (count 0..=64 quick / 1100 thorough; api_id in {None, empty, both API ids, BLIND_-prefixed, random ASCII}), \
                hash_to_scalar (dst up to 400 octets), messages_to_scalars, Sign, and verifier decisions on honest and mutated artefacts (message / header / ph / pk edits, bit flips, index shifts, whole-scalar framing edits, zero scalars, a scalar written as value + r, artefacts forged around the identity element (proof with Abar = Bbar = O and cancelling responses, signature under the identity public key), identity points, trailing bytes, L+-1, other blinding factor, list shapes of the disclosed data: one more message than indexes, one more (unlisted) index than messages, a second entry under an index that is already listed) \
                for verify, proof_verify, blind_sign's commitment validation, verify_blind_sign, blind_proof_verify; proofs and commitments made by the library must be accepted by the reference and vice versa; every blind proof statement (honest and mutated) is decided a second time in the verifier's one-list spelling (committed messages in disclosed_messages under their absolute positions j + L + 1, committed lists None or empty); \
                oracle: byte equality of outputs and equality of Ok/Err decisions with the independent reference model, which must first reproduce every fixture; \
-               size sweep: Sign octets, proof and blind round trips for every L in 0..=72 (quick) / 0..=260 (thorough); every message length 0..=600 / 2100 through messages_to_scalars, every header length 0..=1100 through Sign, every hash_to_scalar input length 0..=300, every interface-identifier length 190..=262 through messages_to_scalars and create_generators; a third of the operations right after a call the library refuses, a third of the operations after a warm-up history; a quarter of the verification comparisons ask the same decoded object three times (as given, other header, as given); volume: 3600 (quick) / 40000 (thorough) small Sign / Verify / ProofVerify comparisons; schedules: lists of such operations executed by 2, 4 or 16 threads released from a barrier in rotated orders; non-trivial = every generated operation (none coincides with a fixture); evaluations = compared outputs / decisions"
+               size sweep: Sign octets, proof and blind round trips for every L in 0..=72 (quick) / 0..=260 (thorough); every message length 0..=600 / 2100 through messages_to_scalars, every header length 0..=1100 through Sign, every hash_to_scalar input length 0..=300, every interface-identifier length 190..=262 through messages_to_scalars and create_generators; a third of the operations right after a call the library refuses, a third of the operations after a warm-up history; a quarter of the verification comparisons ask the same decoded object three times (as given, other header, as given); volume: 3600 (quick) / 40000 (thorough) small Sign / Verify / ProofVerify comparisons; schedules: lists of such operations executed by 2, 4 or 16 threads released from a barrier in rotated orders; large-inputs-under-contention: all workers at once Sign / Verify with headers of 9 KiB .. 300 KiB or 170 .. 260 messages; non-trivial = every generated operation (none coincides with a fixture); evaluations = compared outputs / decisions"
             .into(),
         assumptions: vec![
             "trusted and shared with the library: bls12_381_plus arithmetic, point compression, pairing, hash_to_curve, sha2 / sha3".into(),
